@@ -198,6 +198,12 @@ impl Display for SerializationError {
 
 pub type Result<T> = std::result::Result<T, SerializationError>;
 
+/// The length a `Serialize` implementation announces is only a hint and need not be true:
+/// reserve no more than a modest number of elements up front and let the vector grow.
+fn cautious_capacity(hint: usize) -> usize {
+    hint.min(4096)
+}
+
 pub fn to_value<T>(value: T) -> Result<Value>
 where
     T: Serialize,
@@ -329,7 +335,7 @@ impl ser::Serializer for Serializer {
 
     fn serialize_seq(self, _len: Option<usize>) -> Result<Self::SerializeSeq> {
         Ok(SerializeVec {
-            vec: Vec::with_capacity(_len.unwrap_or(0)),
+            vec: Vec::with_capacity(cautious_capacity(_len.unwrap_or(0))),
         })
     }
 
@@ -354,7 +360,7 @@ impl ser::Serializer for Serializer {
     ) -> Result<Self::SerializeTupleVariant> {
         Ok(SerializeTupleVariant {
             name: String::from(variant),
-            vec: Vec::with_capacity(_len),
+            vec: Vec::with_capacity(cautious_capacity(_len)),
         })
     }
 
